@@ -66,7 +66,14 @@ func c11Eval(c *fw.Ctx, k c11Case) (sig, desc string, nontrivial bool) {
 		ycode[i] = (i + len(k.Dst)) % 3
 	}
 	ry := contentByCode(l, k.Now, c10Choices(2, 3), ycode)
-	(&BFile{L: l, Rings: ry}).Write(filepath.Join(sbase, "it", "y", "a.wsp"))
+	if codeParity(k.Codes[0]) == 1 { // the second item is a symbolic link to a directory outside the item pattern (see c10World)
+		(&BFile{L: l, Rings: ry}).Write(filepath.Join(sbase, "elsewhere-y", "a.wsp"))
+		if os.Symlink(filepath.Join("..", "elsewhere-y"), filepath.Join(sbase, "it", "y")) != nil {
+			(&BFile{L: l, Rings: ry}).Write(filepath.Join(sbase, "it", "y", "a.wsp"))
+		}
+	} else {
+		(&BFile{L: l, Rings: ry}).Write(filepath.Join(sbase, "it", "y", "a.wsp"))
+	}
 	until := k.Until
 	if until == 0 {
 		until = k.Now
